@@ -6,6 +6,7 @@ import (
 	"math"
 	"math/rand"
 	"strings"
+	"sync"
 	"time"
 
 	"lalverif/fw"
@@ -655,7 +656,68 @@ func c18BuildMetadata(c *fw.Ctx) {
 	}
 	c.Cell("buildmetadata/all-present")
 	c.Cell("buildmetadata/some-absent")
+	c18Concurrent(c)
 	c.Sample(map[string]interface{}{"kind": "BuildMetadata", "grid": "9×9×6×4"})
+}
+
+// c18Concurrent: every session encodes its own commands and metadata on its own goroutine. Encoders running at the
+// same time, each into its own writer, must produce what they produce alone (no state shared between calls).
+func c18Concurrent(c *fw.Ctx) {
+	const workers, per = 12, 4000
+	type out struct {
+		bad  int
+		what string
+	}
+	res := make([]out, workers)
+	var wg sync.WaitGroup
+	for w := 0; w < workers; w++ {
+		wg.Add(1)
+		go func(w int) {
+			defer wg.Done()
+			for k := 0; k < per; k++ {
+				x := float64(w*1000003 + k)
+				var buf bytes.Buffer
+				_ = rtmp.Amf0.WriteNumber(&buf, x)
+				_ = rtmp.Amf0.WriteString(&buf, fmt.Sprintf("w%d-%d", w, k))
+				_ = rtmp.Amf0.WriteObject(&buf, rtmp.ObjectPairArray{{Key: "n", Value: x}, {Key: "s", Value: fmt.Sprintf("s%d", k)}, {Key: "b", Value: k%2 == 0}})
+				want := ref.AmfEncodeAll(ref.AmfNum(x), ref.AmfStr(fmt.Sprintf("w%d-%d", w, k)),
+					ref.AmfValue{Kind: ref.AmfObject, Pairs: []ref.AmfPair{{Key: "n", Val: ref.AmfNum(x)}, {Key: "s", Val: ref.AmfStr(fmt.Sprintf("s%d", k))}, {Key: "b", Val: ref.AmfBool(k%2 == 0)}}})
+				if !bytes.Equal(buf.Bytes(), want) {
+					if res[w].bad == 0 {
+						res[w].what = fmt.Sprintf("worker %d value %d: lal wrote % x, alone it writes % x", w, k, buf.Bytes(), want)
+					}
+					res[w].bad++
+				}
+				if k%8 == 0 {
+					b, err := rtmp.BuildMetadata(w+1, k+1, 10, 7)
+					if err == nil {
+						if opa, err := rtmp.ParseMetadata(b); err == nil {
+							if wv, e1 := opa.FindNumber("width"); e1 != nil || wv != w+1 {
+								if res[w].bad == 0 {
+									res[w].what = fmt.Sprintf("worker %d: BuildMetadata(width=%d) reads back width=%d", w, w+1, wv)
+								}
+								res[w].bad++
+							}
+						}
+					}
+				}
+			}
+		}(w)
+	}
+	wg.Wait()
+	c.Eval(workers * per)
+	c.Count("concurrent_encodings", workers*per)
+	total, first := 0, ""
+	for _, o := range res {
+		total += o.bad
+		if first == "" {
+			first = o.what
+		}
+	}
+	if total > 0 {
+		c.Violate("concurrent/encoders-share-state", fmt.Sprintf("%d of %d encodings done by %d goroutines at the same time differ from the same encoding done alone; first: %s", total, workers*per, workers, trunc(first, 400)), nil)
+	}
+	c.Cell("concurrent/encoders")
 }
 
 // c18Deep: containers nested `levels` deep, decoded with the process's default stack limit.
